@@ -21,6 +21,7 @@ abbrev Content := List Char
 
 inductive Kind where
   | mayRaise | raise | benign
+  | encodeCheck      -- `<text>.encode(encoding)`: raises when the text cannot be encoded
   | mkdir | openW | write | close | fsOther
   | osChdir | chdirEnter | chdirExit
   | loopBegin | loopEnd | tryBegin | finallyBegin | tryEnd | ret | unknown
@@ -31,6 +32,7 @@ inductive Target where
   | none
   | loopPath          -- `path`, the key of the module being written
   | loopPathParent    -- `path.parent`
+  | perModule         -- (encodeCheck) evaluated for every module, in a loop over the same dict as the write loop
   | other (expr : String)
   deriving DecidableEq, Repr
 
@@ -46,7 +48,7 @@ def Kind.isFsEffect : Kind → Bool
 
 /-- steps at which the run may stop with an exception that is not an OS / encoding failure -/
 def Kind.canRaise : Kind → Bool
-  | .mayRaise | .raise | .unknown => true
+  | .mayRaise | .raise | .unknown | .encodeCheck => true
   | _ => false
 
 inductive CKind where
@@ -189,6 +191,12 @@ def step1 (env : Env) (faultHere : Bool) (cur : Option (Path × Content)) (inChd
   match s.kind with
   | .mayRaise | .raise | .unknown =>
     if faultHere then .fail (failState env inChdir st) else .next inChdir st
+  | .encodeCheck =>
+    -- fails for another reason (unknown codec, …) when the oracle says so, and — when it is
+    -- evaluated for every module — as soon as one module's text is not encodable
+    if faultHere || (s.target == .perModule && !(env.mods.all (fun m => env.encodable m.2))) then
+      .fail (failState env inChdir st)
+    else .next inChdir st
   | .openW =>
     match targetPath env cur s.target with
     | some p => .next inChdir { st with files := setFile st.files p [] }     -- created / truncated
@@ -265,6 +273,17 @@ def effectsOnLoopPath (steps : List Step) : Bool :=
 /-- file-system effects occur only in the write loop, and only on the module's own path -/
 def writesOnlyInLoop (pre body post : List Step) : Bool :=
   pre.all (fun s => !s.kind.isFsEffect) && post.all (fun s => !s.kind.isFsEffect) && effectsOnLoopPath body
+
+/-- `pre` encodes the text of every module before the write loop starts -/
+def hasEncodeCheck (pre : List Step) : Bool :=
+  pre.any (fun s => s.kind == .encodeCheck && s.target == .perModule)
+
+/-- the expressions the write loop prints (normalised by the translator: `x.rstrip()` ↦ `x`) are
+exactly among those `pre` encodes for every module (`x or ''` ↦ `x`) -/
+def encodeGuardsWrites (pre body : List Step) : Bool :=
+  let checked := (pre.filter (fun s => s.kind == .encodeCheck && s.target == .perModule)).map (·.what)
+  let printed := ((body.filter (fun s => s.kind == .write)).map (·.what)).filter (· != "")
+  !checked.isEmpty && printed.all (fun e => checked.contains e)
 
 def keyUnderOutput (e : String) : Bool := e == "output" || e == "output.joinpath(*name)"
 
